@@ -1,8 +1,16 @@
 """Worker-side task of the C19 memmapping scenarios."""
 
 
+def content(a):
+    """Comparable rendering of the array's content (object arrays hold pointers: their elements are rendered)."""
+    import numpy as np
+    if a.dtype == np.dtype(object):
+        return repr([(type(x).__name__, repr(x)) for x in np.asarray(a).ravel().tolist()])
+    return np.asarray(a).tobytes(order="C").hex()
+
+
 def describe(a, i):
     import numpy as np
     return {"type": "memmap" if isinstance(a, np.memmap) else type(a).__name__, "dtype": str(a.dtype), "shape": list(a.shape),
-            "bytes": np.asarray(a).tobytes(order="C").hex() if a.dtype != np.dtype(object) else np.asarray(a.astype(str)).tobytes().hex(),
+            "bytes": content(a),
             "filename": getattr(a, "filename", None)}
